@@ -57,6 +57,11 @@ def recursive_rerun(ctx, rule):
 
 def run(ctx):
     _run(ctx)
+    from mstatic.rules import c06 as _c06
+    r7 = ctx.rule('R7', 'the reset / skip / env choices of a rerun request '
+                  'reach the engine as the client sent them (RPC server '
+                  'forwards parameters unchanged)', 'AGREE')
+    _c06.rpc_params_forwarded_unchanged(ctx, r7)
     r6 = ctx.rule('R6', 'a partial rerun selects exactly the completed, '
                   'unaccepted items (shared with C07.R10)',
                   'DT (element predicates)')
